@@ -15,6 +15,7 @@
 package event
 
 import (
+	"errors"
 	"io"
 	"path"
 
@@ -60,8 +61,17 @@ func DecodeState(buf []byte) (out *State, err error) {
 
 	// Decode the state, while decoding it can only be volatile (as per use-case)
 	decoded := make(map[uint8]crdt.Volatile)
-	if buf, err = snappy.Decode(nil, buf); err == nil {
-		err = binary.Unmarshal(buf, &decoded)
+	var n int
+	if n, err = snappy.DecodedLen(buf); err == nil && n > 32*len(buf) {
+		err = errors.New("event: corrupt state") // snappy can not expand that much
+	}
+	if err == nil {
+		if buf, err = snappy.Decode(nil, buf); err == nil {
+			err = binary.Unmarshal(buf, &decoded)
+		}
+	}
+	if err != nil {
+		return NewState(""), err
 	}
 
 	// Copy the volatile set into the state
